@@ -1773,3 +1773,11 @@ def register_path2(E):
 _old_register_all8=register_all
 def register_all(E):
     _old_register_all8(E); register_path2(E)
+def register_misc3(E):
+    M=E.model
+    M(r'^(Vec|std::string::String|String|HashMap|HashSet)::(reserve|reserve_exact|shrink_to_fit|shrink_to)$',m_unit)
+    M(r'^(Vec|std::string::String|String)::capacity$',m_len)
+    M(r'^Vec::extend_from_within$',lambda e,run,a,f: (_ for _ in ()).throw(Unsupported('extend_from_within')))
+_old_register_all9=register_all
+def register_all(E):
+    _old_register_all9(E); register_misc3(E)
